@@ -73,10 +73,13 @@ MYTH_CTX_CALLBACK void myth_block_on_queue_cb(void *arg1,void *arg2,void *arg3) 
      after it enters the queue and access
      cur data structure before the context
      has been saved  */
+  MYTH_VERIF_POINT(MYTH_VP_BLOCK_CB_BEGIN, q, cur, 0);
   myth_sleep_queue_enq_th(q, cur);
+  MYTH_VERIF_POINT(MYTH_VP_BLOCK_CB_ENQ, q, cur, 0);
   if (m) {
     myth_mutex_unlock_body(m);
   }
+  MYTH_VERIF_POINT(MYTH_VP_BLOCK_CB_END, q, cur, 0);
 }
 
 /* block the current thread on sleep_queue q */
@@ -100,6 +103,7 @@ static inline void myth_block_on_queue(myth_sleep_queue_t * q,
   }
   /* now save the current context, myth_sleep_queue_enq_th(q, cur)
      to put cur in the q, and jump to next_ctx */
+  MYTH_VERIF_POINT(MYTH_VP_BLOCK_BEGIN, q, cur, 0);
   myth_swap_context_withcall(&cur->context, next_ctx,
 			     myth_block_on_queue_cb, q, cur, m);
 }
@@ -120,10 +124,13 @@ MYTH_CTX_CALLBACK void myth_block_on_stack_cb(void *arg1,void *arg2,void *arg3) 
      after it enters the queue and access
      cur data structure before the context
      has been saved  */
+  MYTH_VERIF_POINT(MYTH_VP_BLOCK_CB_BEGIN, s, cur, 0);
   myth_sleep_stack_push_th(s, cur);
+  MYTH_VERIF_POINT(MYTH_VP_BLOCK_CB_ENQ, s, cur, 0);
   if (m) {
     myth_mutex_unlock_body(m);
   }
+  MYTH_VERIF_POINT(MYTH_VP_BLOCK_CB_END, s, cur, 0);
 }
 
 
@@ -148,6 +155,7 @@ static inline void myth_block_on_stack(myth_sleep_stack_t * s,
   }
   /* now save the current context, myth_sleep_queue_enq_th(q, cur)
      to put cur in the q, and jump to next_ctx */
+  MYTH_VERIF_POINT(MYTH_VP_BLOCK_BEGIN, s, cur, 0);
   myth_swap_context_withcall(&cur->context, next_ctx,
 			     myth_block_on_stack_cb, s, cur, m);
 }
@@ -191,9 +199,11 @@ static inline int myth_wake_one_from_queue(myth_sleep_queue_t * q,
   while (1) {
     to_wake = myth_sleep_queue_deq_th(q);
     if (to_wake) break;
+    MYTH_VERIF_SPIN(MYTH_VP_WAKE_DEQ, q);
     failed++;
     empty_loop(100);
   }
+  MYTH_VERIF_POINT(MYTH_VP_WAKE_DEQ, q, to_wake, 0);
   /* wake up this guy */
   to_wake->env = env;
   /* do any action after dequeueing from the sleep queue
@@ -211,6 +221,7 @@ static inline int myth_wake_one_from_queue(myth_sleep_queue_t * q,
   }
   /* put the thread to wake up in run queue */
   myth_queue_push(&env->runnable_q, to_wake);
+  MYTH_VERIF_POINT(MYTH_VP_WAKE_PUSH, q, to_wake, 0);
   return failed;
 }
 
@@ -262,7 +273,9 @@ static inline int myth_wake_many_from_queue(myth_sleep_queue_t * q,
     myth_thread_t to_wake = 0;
     while (!to_wake) {
       to_wake = myth_sleep_queue_deq_th(q);
+      if (!to_wake) MYTH_VERIF_SPIN(MYTH_VP_WAKE_DEQ, q);
     }
+    MYTH_VERIF_POINT(MYTH_VP_WAKE_DEQ, q, to_wake, 0);
     to_wake->env = env;
     to_wake->next = 0;
     if (to_wake_tail) {
@@ -291,6 +304,7 @@ static inline int myth_wake_many_from_queue(myth_sleep_queue_t * q,
     assert(to_wake);
     myth_thread_t next = to_wake->next;
     myth_queue_push(&env->runnable_q, to_wake);
+    MYTH_VERIF_POINT(MYTH_VP_WAKE_PUSH, q, to_wake, 0);
     to_wake = next;
   }
   return n;
@@ -304,6 +318,7 @@ static inline int myth_wake_if_any_from_queue(myth_sleep_queue_t * q,
 					      void * arg) {
   myth_running_env_t env = myth_get_current_env();
   myth_thread_t to_wake = myth_sleep_queue_deq_th(q);
+  MYTH_VERIF_POINT(MYTH_VP_WAKE_DEQ, q, to_wake, 0);
   /* no threads sleeping, done */
   if (!to_wake) return 0;	/* I did not wake up any */
   to_wake->env = env;
@@ -313,6 +328,7 @@ static inline int myth_wake_if_any_from_queue(myth_sleep_queue_t * q,
   }
   /* put the thread that just woke up to the run queue */
   myth_queue_push(&env->runnable_q, to_wake);
+  MYTH_VERIF_POINT(MYTH_VP_WAKE_PUSH, q, to_wake, 0);
   return 1;			/* I woke up one */
 }
 
@@ -376,7 +392,9 @@ static inline int myth_wake_many_from_stack(myth_sleep_stack_t * s,
     myth_thread_t to_wake = 0;
     while (!to_wake) {
       to_wake = myth_sleep_stack_pop_th(s);
+      if (!to_wake) MYTH_VERIF_SPIN(MYTH_VP_WAKE_DEQ, s);
     }
+    MYTH_VERIF_POINT(MYTH_VP_WAKE_DEQ, s, to_wake, 0);
     to_wake->env = env;
     to_wake->next = 0;
     if (to_wake_tail) {
@@ -405,6 +423,7 @@ static inline int myth_wake_many_from_stack(myth_sleep_stack_t * s,
     assert(to_wake);
     myth_thread_t next = to_wake->next;
     myth_queue_push(&env->runnable_q, to_wake);
+    MYTH_VERIF_POINT(MYTH_VP_WAKE_PUSH, s, to_wake, 0);
     to_wake = next;
   }
   return n;
@@ -420,9 +439,11 @@ static inline int myth_once_try_set(myth_once_t * once_control,
 static inline int myth_once_wait_until(myth_once_t * once_control,
 				       int state) {
   int s = once_control->state;
+  MYTH_VERIF_POINT(MYTH_VP_ONCE_WAIT_READ, once_control, 0, s);
   while (s != state) {
     myth_yield();
     s = once_control->state;
+    MYTH_VERIF_POINT(MYTH_VP_ONCE_WAIT_READ, once_control, 0, s);
   }
   return 0;
 }
@@ -430,13 +451,17 @@ static inline int myth_once_wait_until(myth_once_t * once_control,
 static inline int
 myth_once_body(myth_once_t * once_control, void (*init_routine)(void)) {
   int s = once_control->state;
+  MYTH_VERIF_POINT(MYTH_VP_ONCE_READ, once_control, 0, s);
   if (s == myth_once_state_init) {
    if (myth_once_try_set(once_control, myth_once_state_init,
 			 myth_once_state_in_progress)) {
+     MYTH_VERIF_POINT(MYTH_VP_ONCE_CAS, once_control, 0, 1);
      init_routine();
      once_control->state = myth_once_state_completed;
+     MYTH_VERIF_POINT(MYTH_VP_ONCE_DONE, once_control, 0, 0);
      return 0;
    }
+   MYTH_VERIF_POINT(MYTH_VP_ONCE_CAS, once_control, 0, 0);
   }
   myth_once_wait_until(once_control, myth_once_state_completed);
   return 0;
@@ -472,14 +497,17 @@ static inline int myth_mutex_trylock_body(myth_mutex_t * mutex) {
   /* TODO: spin block */
   while (1) {
     long s = mutex->state;
+    MYTH_VERIF_POINT(MYTH_VP_MX_TRY_READ, mutex, 0, s);
     /* check the lock bit */
     if (s & 1) {
       /* lock bit set. do nothing and go home */
       return EBUSY;
     } else if (__sync_bool_compare_and_swap(&mutex->state, s, s + 1)) {
       /* I set the lock bit */
+      MYTH_VERIF_POINT(MYTH_VP_MX_TRY_CAS, mutex, 0, 1);
       return 0;
     } else {
+      MYTH_VERIF_POINT(MYTH_VP_MX_TRY_CAS, mutex, 0, 0);
       continue;
     }
   }
@@ -522,13 +550,16 @@ static inline int myth_mutex_lock_body(myth_mutex_t * mutex) {
   int failed = 0;
   while (1) {
     long s = mutex->state;
+    MYTH_VERIF_POINT(MYTH_VP_MX_LOCK_READ, mutex, 0, s);
     assert(s >= 0);
     /* check lock bit */
     if ((s & 1) == 0) {
       /* lock bit clear -> try to become the one who set it */
       if (__sync_bool_compare_and_swap(&mutex->state, s, s + 1)) {
+	MYTH_VERIF_POINT(MYTH_VP_MX_LOCK_CAS1, mutex, 0, 1);
 	break;
       } else {
+	MYTH_VERIF_POINT(MYTH_VP_MX_LOCK_CAS1, mutex, 0, 0);
         //struct timespec req[1] = { { ns / 1000000000, ns % 1000000000 } };
         //nanosleep(req, 0);
         //ns += ns;
@@ -542,7 +573,10 @@ static inline int myth_mutex_lock_body(myth_mutex_t * mutex) {
 	   unlocked by another thread right after the above cas, 
 	   he will learn I am going to be in the queue soon, so should
 	   wake me up */
+	MYTH_VERIF_POINT(MYTH_VP_MX_LOCK_CAS2, mutex, 0, 1);
 	myth_block_on_queue(mutex->sleep_q, 0);
+      } else {
+	MYTH_VERIF_POINT(MYTH_VP_MX_LOCK_CAS2, mutex, 0, 0);
       }
       failed++;
     }
@@ -583,6 +617,7 @@ static void * myth_mutex_clear_lock_bit(void * mutex_) {
   myth_mutex_t * mutex = mutex_;
   assert(mutex->state & 1);
   __sync_fetch_and_sub(&mutex->state, 1);
+  MYTH_VERIF_POINT(MYTH_VP_MX_CLEAR_BIT, mutex, 0, 0);
   return 0;
 }
 
@@ -591,6 +626,7 @@ static inline int myth_mutex_unlock_body(myth_mutex_t * mutex) {
   int failed = 0;
   while (1) {
     long s = mutex->state;
+    MYTH_VERIF_POINT(MYTH_VP_MX_UNLOCK_READ, mutex, 0, s);
     /* the mutex must be locked now (by me). 
        TODO: a better diagnosis message */
     if (!(s & 1)) {
@@ -606,18 +642,22 @@ static inline int myth_mutex_unlock_body(myth_mutex_t * mutex) {
 	 on the queue. decrement it (while still keeping the lock bit)
 	 wake up one, and then clear the lock bit */
       if (__sync_bool_compare_and_swap(&mutex->state, s, s - 2)) {
+	MYTH_VERIF_POINT(MYTH_VP_MX_UNLOCK_CAS2, mutex, 0, 1);
 	failed += myth_wake_one_from_queue(mutex->sleep_q, 
                                            myth_mutex_clear_lock_bit, mutex);
 	break;
       } else {
+	MYTH_VERIF_POINT(MYTH_VP_MX_UNLOCK_CAS2, mutex, 0, 0);
         failed++;
       }
     } else {
       /* nobody waiting. clear the lock bit and done */
       assert(s == 1);
       if (__sync_bool_compare_and_swap(&mutex->state, 1, 0)) {
+	MYTH_VERIF_POINT(MYTH_VP_MX_UNLOCK_CAS0, mutex, 0, 1);
 	break;
       } else {
+	MYTH_VERIF_POINT(MYTH_VP_MX_UNLOCK_CAS0, mutex, 0, 0);
         failed++;
       }
     }
@@ -785,16 +825,19 @@ static inline int myth_cond_destroy_body(myth_cond_t * cond) {
 }
 
 static inline int myth_cond_broadcast_body(myth_cond_t * cond) {
+  MYTH_VERIF_POINT(MYTH_VP_COND_BCAST, cond, cond->sleep_q, 0);
   myth_wake_all_from_queue(cond->sleep_q, 0, 0);
   return 0;
 }
 
 static inline int myth_cond_signal_body(myth_cond_t * cond) {
+  MYTH_VERIF_POINT(MYTH_VP_COND_SIGNAL, cond, cond->sleep_q, 0);
   myth_wake_if_any_from_queue(cond->sleep_q, 0, 0);
   return 0;
 }
 
 static inline int myth_cond_wait_body(myth_cond_t * cond, myth_mutex_t * mutex) {
+  MYTH_VERIF_POINT(MYTH_VP_COND_WAIT, cond, cond->sleep_q, 0);
   myth_block_on_queue(cond->sleep_q, mutex);
   return myth_mutex_lock(mutex);
 }
@@ -852,6 +895,7 @@ static inline int myth_barrier_destroy_body(myth_barrier_t * barrier) {
 static inline int myth_barrier_wait_body(myth_barrier_t * barrier) {
   while (1) {
     long c = barrier->state;
+    MYTH_VERIF_POINT(MYTH_VP_BAR_READ, barrier, barrier->sleep_s, c);
     if (c >= barrier->n_threads) {
       /* TODO: set errno and return */
       fprintf(stderr, 
@@ -860,12 +904,15 @@ static inline int myth_barrier_wait_body(myth_barrier_t * barrier) {
       exit(1);
     }
     if (! __sync_bool_compare_and_swap(&barrier->state, c, c + 1)) {
+      MYTH_VERIF_POINT(MYTH_VP_BAR_CAS, barrier, 0, 0);
       continue;
     }
+    MYTH_VERIF_POINT(MYTH_VP_BAR_CAS, barrier, 0, 1);
     if (c == barrier->n_threads - 1) {
       /* I am the last one. wake up all guys.
 	 TODO: spin block */
       barrier->state = 0;	/* reset state */
+      MYTH_VERIF_POINT(MYTH_VP_BAR_RESET, barrier, 0, 0);
       //myth_wake_many_from_queue(barrier->sleep_q, 0, 0, c);
       myth_wake_many_from_stack(barrier->sleep_s, 0, 0, c);
       return MYTH_BARRIER_SERIAL_THREAD;
@@ -929,6 +976,7 @@ myth_join_counter_init_body(myth_join_counter_t * jc,
 static inline int myth_join_counter_wait_body(myth_join_counter_t * jc) {
   while (1) {
     long s = jc->state;
+    MYTH_VERIF_POINT(MYTH_VP_JC_WAIT_READ, jc, jc->sleep_q, s);
     if ((s & jc->state_mask) == jc->n_threads) {
       return 0;
     }
@@ -937,8 +985,10 @@ static inline int myth_join_counter_wait_body(myth_join_counter_t * jc) {
     if (! __sync_bool_compare_and_swap(&jc->state, s, new_s)) {
       /* another thread may have just decrement it, so I may
 	 have to keep going */
+      MYTH_VERIF_POINT(MYTH_VP_JC_WAIT_CAS, jc, 0, 0);
       continue;
     }
+    MYTH_VERIF_POINT(MYTH_VP_JC_WAIT_CAS, jc, 0, 1);
     myth_block_on_queue(jc->sleep_q, 0);
     assert((jc->state & jc->state_mask) == jc->n_threads);
   }
@@ -947,6 +997,7 @@ static inline int myth_join_counter_wait_body(myth_join_counter_t * jc) {
 static inline int myth_join_counter_dec_body(myth_join_counter_t * jc) {
   while (1) {
     long s = jc->state;
+    MYTH_VERIF_POINT(MYTH_VP_JC_DEC_READ, jc, jc->sleep_q, s);
     long n_decs = s & jc->state_mask;
     if (n_decs >= jc->n_threads) {
       /* TODO: set errno and return */
@@ -957,8 +1008,10 @@ static inline int myth_join_counter_dec_body(myth_join_counter_t * jc) {
     }
     assert(((s + 1) & jc->state_mask) == (n_decs + 1));
     if (!__sync_bool_compare_and_swap(&jc->state, s, s + 1)) {
+      MYTH_VERIF_POINT(MYTH_VP_JC_DEC_CAS, jc, 0, 0);
       continue;
     }
+    MYTH_VERIF_POINT(MYTH_VP_JC_DEC_CAS, jc, 0, 1);
     if (n_decs == jc->n_threads - 1) {
       /* I am the last one. wake up all guys.
 	 TODO: spin block */
@@ -1058,7 +1111,10 @@ MYTH_CTX_CALLBACK
 void myth_uncond_wait_cb(void *arg1,void *arg2,void *arg3) {
   myth_uncond_t * u = arg1;
   myth_thread_t cur = arg2;
+  MYTH_VERIF_POINT(MYTH_VP_BLOCK_CB_BEGIN, u, cur, 0);
   u->th = cur;
+  MYTH_VERIF_POINT(MYTH_VP_BLOCK_CB_ENQ, u, cur, 0);
+  MYTH_VERIF_POINT(MYTH_VP_BLOCK_CB_END, u, cur, 0);
 }
 
 static inline int myth_uncond_wait_body(myth_uncond_t * u) {
@@ -1080,6 +1136,7 @@ static inline int myth_uncond_wait_body(myth_uncond_t * u) {
   }
   /* now save the current context, myth_sleep_queue_enq_th(q, cur)
      to put cur in the q, and jump to next_ctx */
+  MYTH_VERIF_POINT(MYTH_VP_BLOCK_BEGIN, u, cur, 0);
   myth_swap_context_withcall(&cur->context, next_ctx,
 			     myth_uncond_wait_cb, u, cur, 0);
   return 0;
@@ -1089,11 +1146,15 @@ static inline int myth_uncond_signal_body(myth_uncond_t * u) {
   myth_running_env_t env = myth_get_current_env();
   myth_thread_t to_wake = u->th;
   while (!to_wake) {
+    MYTH_VERIF_SPIN(MYTH_VP_UC_SIG_READ, u);
     to_wake = u->th;
   }
+  MYTH_VERIF_POINT(MYTH_VP_UC_SIG_READ, u, to_wake, 1);
   to_wake->env = env;
   u->th = 0;
+  MYTH_VERIF_POINT(MYTH_VP_UC_SIG_CLEAR, u, to_wake, 0);
   myth_queue_push(&env->runnable_q, to_wake);
+  MYTH_VERIF_POINT(MYTH_VP_WAKE_PUSH, u, to_wake, 0);
   return 0;
 }
 
